@@ -53,6 +53,7 @@ type memdb struct {
 	ids        []uint64          // sorted list of body ids
 	fields     map[string]int64  // list of all fields and their counts for HEAD
 	fieldTimes map[string]string // timestamp of last update for each field in HEAD
+	ftStale    bool              // fieldTimes must be recomputed from data before it is served
 	mu         sync.RWMutex
 }
 
@@ -71,6 +72,7 @@ func (d *Data) initMemoryDB(versions []string) error {
 			fields:     make(map[string]int64),
 			fieldTimes: make(map[string]string),
 			ids:        []uint64{},
+			ftStale:    true, // computed when first asked for (also for the read-only UUID dbs)
 		}
 		if strings.HasPrefix(versionSpec, ":") {
 			branch := strings.TrimPrefix(versionSpec, ":")
@@ -103,19 +105,25 @@ func (d *Data) initMemoryDB(versions []string) error {
 // initialize the fieldTimes map for an already loaded memdb.
 func (d *Data) initFieldTimes(mdb *memdb) {
 	for _, neuronjson := range mdb.data {
-		for field := range neuronjson {
-			if strings.HasSuffix(field, "_time") {
-				rootField := field[:len(field)-5]
-				timestamp, isString := neuronjson[field].(string)
-				if !isString {
-					continue
-				}
-				if _, found := mdb.fieldTimes[rootField]; !found {
-					mdb.fieldTimes[rootField] = timestamp
-				} else {
-					if timestamp > mdb.fieldTimes[rootField] {
-						mdb.fieldTimes[rootField] = timestamp
-					}
+		addFieldTimes(mdb.fieldTimes, neuronjson)
+	}
+}
+
+// addFieldTimes raises fieldTimes to the *_time stamps of one annotation, so that over a set of
+// annotations it holds the newest stamp of every field.
+func addFieldTimes(fieldTimes map[string]string, annotation NeuronJSON) {
+	for field := range annotation {
+		if strings.HasSuffix(field, "_time") {
+			rootField := field[:len(field)-5]
+			timestamp, isString := annotation[field].(string)
+			if !isString {
+				continue
+			}
+			if _, found := fieldTimes[rootField]; !found {
+				fieldTimes[rootField] = timestamp
+			} else {
+				if timestamp > fieldTimes[rootField] {
+					fieldTimes[rootField] = timestamp
 				}
 			}
 		}
